@@ -92,6 +92,19 @@ func init() {
 		},
 	})
 	core.Register(&core.Property{
+		ID:         "C10",
+		Decided:    "Decides which stores to package-level state happen outside init/sync.Once without a lock or atomic operation (both build configurations), that the atomically published type maps are copy-on-write, that reusable handles are not written after construction, that a pooled runtime context (and buffers derived from it) is not used after its release, and that the per-type query cache is only touched under its mutex; it does not decide absence of data races for any schedule.",
+		NotCovered: "actual interleavings, the Go memory model beyond 'is there synchronisation at this store', user callbacks, distinct Encoders/Decoders sharing a writer or reader.",
+		Rules: []*core.Rule{
+			{ID: "C10.R1", Title: "every ssa.Store whose address is rooted in a package-level variable of the module is in init, in a sync.Once body, or under a held sync lock (must-analysis over the CFG); in the race build every cache slot access is under the lock", Covers: "first use of a type from several goroutines", Configs: []string{"default", "race"}, Min: 5, Run: c10r1},
+			{ID: "C10.R2", Title: "a map obtained from loadOpcodeMap/loadDecoderMap is never assigned into or deleted from, directly or by the callee it is passed to; the callee builds a fresh map and publishes it with atomic.StorePointer", Covers: "types outside the address-indexed cache are compiled and looked up concurrently", Min: 4, Run: c10r2},
+			{ID: "C10.R3", Title: "fields of encoder.FieldQuery and decoder.Path are assigned only in their builders", Covers: "a FieldQuery or compiled Path may be shared by goroutines", Min: 3, Run: c10r3},
+			{ID: "C10.R4", Title: "typestate: after ReleaseRuntimeContext(ctx), ctx and every []byte obtained from a call that took ctx are stale; no stale use", Covers: "results are copied out before the pooled context can be handed to another goroutine", Min: 10, Run: c10r4},
+			{ID: "C10.R6", Title: "while a sync lock on a package-level mutex is held (must-analysis), no call is made whose callees (VTA call graph) lock the same mutex", Covers: "no self-deadlock in the race-enabled build", Configs: []string{"race"}, Min: 1, Run: c10r6},
+			{ID: "C10.R5", Title: "every access of OpcodeSet.QueryCache is at a point where a sync lock is held on all paths", Covers: "concurrent MarshalContext calls with different queries on one type", Min: 2, Run: c10r5},
+		},
+	})
+	core.Register(&core.Property{
 		ID:         "C12",
 		Decided:    "Decides that the caller's input reaches only len() and the source side of a copy in the Unmarshal entry points, that every slice a Marshal entry point returns is freshly made and filled before the pooled context is released, that in stream mode UnmarshalJSON/UnmarshalText receive fresh copies, and that in-place unescaping only ever rewrites memory the library allocated; it does not decide absence of aliasing for every value.",
 		NotCovered: "that the stream window never moves over strings already handed out, RawMessage/[]byte destinations in stream mode, what user callbacks do with the slices they get.",
@@ -123,7 +136,7 @@ func init() {
 		Rules: []*core.Rule{
 			{ID: "C14.R1", Title: "every index into cachedOpcodeSets/cachedDecoder is dominated by returning tests `addr > typeAddr.MaxTypeAddr` and `addr < typeAddr.BaseTypeAddr` on the address the index is computed from", Covers: "types outside the analysed address range (run-time created, PIE) never index the cache", Configs: []string{"default", "race"}, Min: 4, Run: c14r1},
 			{ID: "C14.R2", Title: "lookup and store use one index variable assigned once; the stored value is the result of a compile call on the function's own type argument; the slow-path map is keyed by the full address", Covers: "the program applied to a value is the one compiled for its type", Configs: []string{"default", "race"}, Min: 8, Run: c14r2},
-			{ID: "C14.R3", Title: "CompileToGetCodeSet / CompileToGetDecoder: race and norace variants have the same normal form once Lock/Unlock statements are dropped; encoder and decoder guards compare the same bounds", Covers: "both build configurations implement the same cache", Min: 3, Run: c14r3},
+			{ID: "C14.R3", Title: "CompileToGetCodeSet / CompileToGetDecoder: race and norace variants perform the same sequence of module calls, cache slot reads/writes and address-bound comparisons; encoder and decoder guards compare the same bounds", Covers: "both build configurations implement the same cache", Min: 3, Run: c14r3},
 			{ID: "C14.R4", Title: "caches are allocated with AddrRange>>AddrShift+1 entries and indexed with >>AddrShift", Covers: "every in-range address maps to an allocated slot", Min: 4, Run: c14r4},
 		},
 	})
